@@ -25,7 +25,7 @@ TARGET = "/tmp/seedverify_target"
 
 
 def sh(cmd, cwd=None, timeout=1500, env=None):
-    e = dict(os.environ, CARGO_TARGET_DIR=TARGET, CARGO_NET_OFFLINE="true")
+    e = dict(os.environ, CARGO_TARGET_DIR=TARGET, CARGO_NET_OFFLINE="true", CARGO_BUILD_JOBS=os.environ.get("SEED_JOBS", "16"))
     if env:
         e.update(env)
     try:
@@ -44,7 +44,21 @@ def suite(cwd, timeout=900):
 
 
 def main():
+    global WT, TARGET
     pid, ddir, sid = sys.argv[1], sys.argv[2], sys.argv[3]
+    phase = sys.argv[4] if len(sys.argv) > 4 else "all"   # all | confirm | checks
+    WT = "/tmp/seedverify_wt_%s" % sid
+    slot = os.environ.get("SEED_SLOT")
+    if slot:
+        TARGET = "/tmp/seedverify_target_%s" % slot
+    dst = os.path.join(VERIF, "seeded", sid)
+    if phase == "checks":
+        with open(os.path.join(dst, "meta.json")) as fh:
+            res = json.load(fh)
+        if not res.get("confirmed"):
+            print("not confirmed; skipping checks")
+            return 1
+        return run_checks(pid, sid, os.path.join(dst, "patch.diff"), res, dst)
     patch = os.path.join(ddir, "patch.diff")
     demo = os.path.join(ddir, "demo.diff")
     for p in (patch, demo):
@@ -94,13 +108,24 @@ def main():
     finally:
         subprocess.run(["git", "-C", REPO, "worktree", "remove", "--force", WT])
     # file it
-    dst = os.path.join(VERIF, "seeded", sid)
     os.makedirs(dst, exist_ok=True)
     shutil.copy(patch, os.path.join(dst, "patch.diff"))
     shutil.copy(demo, os.path.join(dst, "demo.diff"))
     rd = os.path.join(ddir, "README.md")
     if os.path.exists(rd):
         shutil.copy(rd, os.path.join(dst, "AGENT_README.md"))
+    res["date"] = time.strftime("%Y-%m-%d")
+    res["ran"] = ["cargo test --workspace --no-fail-fast --offline (with patch; with patch+demo; with demo only)",
+                  "./check CNN --tier quick for all 20 properties with the patch applied to /repo (undone afterwards)"]
+    with open(os.path.join(dst, "meta.json"), "w") as fh:
+        json.dump(res, fh, indent=1)
+    if phase == "confirm":
+        print("confirmed and filed under", dst)
+        return 0
+    return run_checks(pid, sid, os.path.join(dst, "patch.diff"), res, dst)
+
+
+def run_checks(pid, sid, patch, res, dst):
     # run the checks against /repo with the patch applied
     st = subprocess.run(["git", "-C", REPO, "status", "--porcelain"], stdout=subprocess.PIPE, text=True).stdout.strip()
     if st:
@@ -123,9 +148,6 @@ def main():
         shutil.rmtree("/tmp/seedverify_out", ignore_errors=True)
     res["checks_fired"] = fired
     res["caught_by_own_property"] = pid in fired
-    res["date"] = time.strftime("%Y-%m-%d")
-    res["ran"] = ["cargo test --workspace --no-fail-fast --offline (with patch; with patch+demo; with demo only)",
-                  "./check CNN --tier quick for all 20 properties with the patch applied to /repo (undone afterwards)"]
     with open(os.path.join(dst, "meta.json"), "w") as fh:
         json.dump(res, fh, indent=1)
     print("filed under", dst, "fired:", fired)
